@@ -15,6 +15,7 @@ package handlers
 //@   safety
 //@   ensures res == normType(provider)
 //@   ensures provider != "" ==> res != ""
+//@   ensures provider == "" ==> res == ""
 
 //@ func (a *Application) extractRequiredCapabilities
 //@   property C11
@@ -518,7 +519,8 @@ package handlers
 
 //@ func (a *Application) isProviderSupported
 //@   property C11
-//@   trusted
+//@   safety
+//@   requires a != nil
 //@   ensures res ==> provider != ""
 
 //@ func getProviderPrefix
